@@ -58,11 +58,11 @@ DATA = os.path.join(os.path.dirname(os.path.dirname(os.path.dirname(os.path.absp
 def bounds(tier):
     return {
         "quick": {"gc_len": 6, "gc_codes": "25 distinct tables", "seq_len": {"1": 6, "2": 5, "6": 5},
-                  "seq_len_all_tables": 3, "view_len": 4, "coll_units": ["ATG", "TAA"], "coll_codes": [1],
+                  "seq_len_all_tables": 3, "view_len": 4, "coll_units": ["ATG", "TAA", "AGA"], "coll_codes": [1, 2],
                   "single_coll_len": 3, "iupac_len": 3, "iupac_seq_len": 2},
         "thorough": {"gc_len": 8, "gc_codes": "25 distinct tables",
                      "seq_len": {"1": 8, "2": 6, "3": 6, "6": 6, "14": 6, "15": 6, "22": 6, "23": 6, "27": 6},
-                     "seq_len_all_tables": 3, "view_len": 6, "coll_units": ["ATG", "TAA", "AGA"],
+                     "seq_len_all_tables": 3, "view_len": 6, "coll_units": ["ATG", "TAA", "AGA", "TGA"],
                      "coll_codes": [1, 2], "single_coll_len": 4, "iupac_len": 3, "iupac_seq_len": 3},
     }[tier]
 
@@ -575,6 +575,9 @@ def chk_select(acc, s, cid):
     # which of several stop-free frames is used is the library's tie-break: its own best_frame() says which; what
     # is judged is that the selected sequence is that frame's codons
     bf = call(lambda: I["app"].best_frame(I["om"].DNA.make_seq(s, name="a"), gc=cid, allow_rc=True))
+    if bf[0] == "err":
+        _fail(acc, "app.translate.best_frame(allow_rc=True): refuses a sequence that has a frame without internal stops", {"part": "select", "s": s, "code": cid}, bf, clean)
+        return
     if bf[0] != "ok" or not isinstance(bf[1], int) or bf[1] == 0:
         return
     i = (bf[1] - 1) if bf[1] > 0 else (2 - bf[1])
@@ -914,7 +917,7 @@ def chk_gapped_stops(acc, order):
     acc.sample({"gapped_terminal_stops": True, "code_order": order}, "gapped_stops")
 
 
-def select_rev_strings(tail_len, first_stop, between="A"):
+def select_rev_strings(tail_len, first_stop, between="A", head=""):
     """sequences whose three forward frames each hold an internal stop (a stop at offsets 0, 4 and 8), so that the frame
     select_translatable has to use lies on the reverse strand: every choice of the three stops, the two bases between
     them (quick: A; thorough: A, C) and every tail of the given length over {A, C, G}"""
@@ -922,7 +925,19 @@ def select_rev_strings(tail_len, first_stop, between="A"):
     for s2, s3 in itertools.product(stops, repeat=2):
         for n1, n2 in itertools.product(between, repeat=2):
             for tail in itertools.product("ACG", repeat=tail_len):
-                yield first_stop + n1 + s2 + n2 + s3 + "".join(tail)
+                yield head + first_stop + n1 + s2 + n2 + s3 + "".join(tail)
+
+
+ORF_UNITS = ["ATT", "ATA", "AGC", "AAT", "TTA", "CTT", "AGT", "TCA"]
+
+
+def select_orf_strings(first, n, stops):
+    """reverse complements of open reading frames: n codons over ORF_UNITS (the first one given) then a stop codon.  The
+    units are chosen so that the other five frames mostly hold stops of their own, some of them exactly one: the frame to
+    use is then the reverse-strand one that ends in a terminal stop"""
+    for rest in itertools.product(ORF_UNITS, repeat=n - 1):
+        for st in stops:
+            yield o_rc(first + "".join(rest) + st)
 
 
 def shards(tier, seed):
@@ -932,6 +947,13 @@ def shards(tier, seed):
             for L in ((3, 4) if tier == "quick" else (3, 4, 5)) for st in ("TAA", "TAG", "TGA")]
     if tier == "quick":
         out.append({"part": "select_rev", "tail": 5, "first": "TGA", "between": "C"})  # reaches the frames -2 and -3 as well
+    # a head that is the reverse complement of a stop codon: the reverse-strand frame then ends in a terminal stop
+    out += [{"part": "select_rev", "tail": L, "first": st, "between": "A", "head": h}
+            for h in (("TTA",) if tier == "quick" else ("TTA", "CTA", "TCA"))
+            for L in ((2, 3, 4) if tier == "quick" else (2, 3, 4, 5)) for st in ("TAA", "TAG", "TGA")]
+    out += [{"part": "select_orf", "first": u, "n": 4, "stops": ["TAA", "TAG", "TGA"]} for u in ORF_UNITS]
+    if tier == "thorough":
+        out += [{"part": "select_orf", "first": u, "n": 5, "stops": [st]} for u in ORF_UNITS for st in ("TAA", "TGA")]
     # gc level: all distinct tables inside the shard
     for n in range(0, b["gc_len"] + 1):
         of = _nchunks(n, 0.95 * len(TABLE_REPS), target_s=8.0 if tier == "quick" else 40.0)
@@ -988,8 +1010,12 @@ def run_shard(spec, acc):
             chk_symbols(acc, name)
     elif part == "gapped_stops":
         chk_gapped_stops(acc, spec["order"])
+    elif part == "select_orf":
+        for s in select_orf_strings(spec["first"], spec["n"], spec["stops"]):
+            chk_select(acc, s, 1)
+        acc.sample({"select_translatable": "reverse complements of open reading frames", "codons": spec["n"], "units": ORF_UNITS}, "select_orf")
     elif part == "select_rev":
-        for s in select_rev_strings(spec["tail"], spec["first"], spec["between"]):
+        for s in select_rev_strings(spec["tail"], spec["first"], spec["between"], spec.get("head", "")):
             chk_select(acc, s, 1)
         acc.sample({"select_translatable": "reverse-strand frames", "tail_length": spec["tail"]}, "select_rev")
     elif part == "translate":
